@@ -1112,8 +1112,14 @@ class WorkflowConductor(object):
             engine_event = events.ENGINE_EVENT_MAP[next_task_id]
             self.update_task_state(next_task_id, next_task_route, engine_event())
 
-        # Mark the task as a terminal task if workflow execution is completed.
-        if self.get_workflow_status() in statuses.COMPLETED_STATUSES:
+        # Mark the task as a terminal task if workflow execution is completed. This includes
+        # a workflow that paused with nothing left to run which will be completed on resume.
+        if self.get_workflow_status() in statuses.COMPLETED_STATUSES or (
+            self.get_workflow_status() == statuses.PAUSED
+            and not self.workflow_state.has_active_tasks
+            and not self.workflow_state.has_staged_tasks
+            and not self.workflow_state.has_paused_tasks
+        ):
             task_state_entry["term"] = True
 
         return task_state_entry
